@@ -556,30 +556,19 @@ impl Server {
                     }
                 }).flatten();
                 if let Some((keys, deadline, op_type)) = blocked {
+                    // Wait again, at the place in the queues the client had (ahead of the clients
+                    // that blocked after it)
+                    self.blocking_manager.reregister_blocked(wakeup.db, wakeup.conn_id, keys.clone(), op_type, deadline, wakeup.blocked_at)?;
                     // Another of its keys may have received an element meanwhile (the client was
-                    // not registered there any more, so nobody was notified): serve it from the
-                    // first key that has one, as a fresh blocking call would be
+                    // not registered there any more, so it was not notified). Nothing is popped
+                    // here: that would take the element past the clients that blocked on that key
+                    // earlier. The head of the key's queue - this client or an earlier one - is
+                    // woken instead, as a push does. A key of another type counts as empty
                     for key in &keys {
-                        let found = match op_type {
-                            super::connection::BlockingOp::BRPop => self.storage.rpop(wakeup.db, key).unwrap_or(None),
-                            _ => self.storage.lpop(wakeup.db, key).unwrap_or(None),
-                        };
-                        if let Some(element) = found {
-                            self.connections.with_connection(wakeup.conn_id, |conn| {
-                                let response = RespFrame::Array(Some(vec![
-                                    RespFrame::from_bytes(key.clone()),
-                                    RespFrame::from_bytes(element.clone()),
-                                ]));
-                                let _ = conn.send_frame(&response);
-                                conn.state = ConnectionState::Authenticated;
-                            });
-                            self.log_blocking_pop(&op_type, wakeup.db, key);
-                            return Ok(());
+                        if self.storage.llen(wakeup.db, key).unwrap_or(0) > 0 {
+                            self.blocking_manager.notify_key_ready(wakeup.db, key);
                         }
                     }
-                    // Nothing anywhere: wait again, at the place in the queues the client had
-                    // (ahead of the clients that blocked after it)
-                    self.blocking_manager.reregister_blocked(wakeup.db, wakeup.conn_id, keys, op_type, deadline, wakeup.blocked_at)?;
                 }
             }
         }
